@@ -20,6 +20,8 @@ import H263V.Lemmas.LevelArrays
 import H263V.Lemmas.SampleErr
 import H263V.Lemmas.Truncated
 import H263V.Lemmas.TruncatedAny
+import H263V.Lemmas.InterEnd
+import H263V.Thm.C02
 namespace H263V.Thm.C03
 open H263V H263V.Gather H263V.Mv H263V.Spec.Vlc
 
@@ -269,5 +271,91 @@ theorem lerp_params_floor (v : Int) : (lerpParams v).1 = v / 2 ∧ ((lerpParams 
   unfold lerpParams tmod2 tdiv2
   repeat' split
   all_goals (constructor <;> simp <;> omega)
+
+open H263V.State H263V.Lemmas.StreamAny H263V.Lemmas.LevelArrays H263V.Lemmas.SampleErr H263V.Lemmas.PlaneInv
+  H263V.Lemmas.GatherPic in
+/-- **C03 in one statement.**  In every decoder state a history can reach (`StoreOK`, carried-over options empty), with a
+reference picture `r` of the picture's dimensions, a valid predicted picture (P or disposable) of ANY header flavour, followed by
+anything:
+* **decodes successfully** and leaves the reader exactly behind the picture's bits;
+* the decoded picture reports the header; its planes have exactly the signalled sizes;
+* the type array is `typeOf` of the description's macroblocks (INTER for not-coded ones), the vector array is `MvChain` — median
+  predictor over the vectors filed so far plus the coded differential, wrapped (C12); zero for INTRA and not-coded macroblocks —
+  and the level arrays hold the description's blocks, dequantised with the quantizer in force (`QChain`; C11);
+* **every sample is within one of clip 0..255 (prediction + reference inverse transform of the covering block)**, the prediction
+  (`lumaAt` / `chromaAt`) being, in INTER macroblocks, the half-sample bilinear interpolation of `r` at the macroblock's vector
+  (chroma: the sum of the four luma vectors through the sixteenth-position table) with coordinates clamped to the picture
+  (`predicted_picture_samples`, `gather_block_eq_spec`), and 0 in INTRA macroblocks; a not-coded macroblock (zero vector, no
+  levels) is therefore an exact copy (`not_coded_macroblocks_are_copies`).
+Without a reference the picture is rejected (`no_reference_rejected`). -/
+theorem predicted_picture_decodes_within_one (s : State) (hs : StoreOK s) (hr : s.running = 0) (p : Pic) (w h : Nat)
+    (hv : p.Valid s w h) (hw : 1 ≤ w) (hh : 1 ≤ h) (hi : (p.picture s).picType ≠ .iFrame) (r : DecPic)
+    (href : s.getRef = some r) (hrd : r.fmt.dims = some (w, h)) (rest : Bits) (pos : Nat) :
+    ∃ (pic : DecPic) (lumaLv cbLv crLv : Array Rle.Dct) (qs : List Nat) (vs : List Mv4),
+      decodeNextPicture s ⟨p.bits s ++ rest, pos⟩ =
+        .ok (commitPic s (p.picture s) pic, ⟨rest, pos + (p.bits s).length⟩) ∧
+      pic.hdr = p.picture s ∧ QChain (p.picture s).quantizer p.mbs qs ∧
+      MvChain (p.picture s) (some (w, h)) (nextRunning (p.picture s) s.running) ((w + 15) / 16) #[] p.mbs vs ∧
+      (∀ id, lumaLv.getD id .zero = lumaLvAt ((w + 15) / 16) 0 p.mbs qs .zero id) ∧
+      (∀ id, cbLv.getD id .zero = chromaLvAt 0 p.mbs qs 4 .zero id) ∧
+      (∀ id, crLv.getD id .zero = chromaLvAt 0 p.mbs qs 5 .zero id) ∧
+      pic.luma.size = w * h ∧ pic.cb.size = (w + 1) / 2 * ((h + 1) / 2) ∧ pic.cr.size = (w + 1) / 2 * ((h + 1) / 2) ∧
+      (∀ k, ((pic.luma.getD k 0 : Int) - (idealVal lumaLv ((w + 15) / 16 * 2) w (w * h) k
+        (lumaAt (p.mbs.map typeOf).toArray r vs.toArray ((w + 15) / 16) w (Array.replicate (w * h) 0) k) : Int)).natAbs ≤ 1) ∧
+      (∀ k, ((pic.cb.getD k 0 : Int) - (idealVal cbLv ((w + 15) / 16) ((w + 1) / 2) ((w + 1) / 2 * ((h + 1) / 2)) k
+        (chromaAt (p.mbs.map typeOf).toArray r.cb ((w + 1) / 2) vs.toArray ((w + 15) / 16)
+          (Array.replicate ((w + 1) / 2 * ((h + 1) / 2)) 0) k) : Int)).natAbs ≤ 1) ∧
+      (∀ k, ((pic.cr.getD k 0 : Int) - (idealVal crLv ((w + 15) / 16) ((w + 1) / 2) ((w + 1) / 2 * ((h + 1) / 2)) k
+        (chromaAt (p.mbs.map typeOf).toArray r.cr ((w + 1) / 2) vs.toArray ((w + 15) / 16)
+          (Array.replicate ((w + 1) / 2 * ((h + 1) / 2)) 0) k) : Int)).natAbs ≤ 1) :=
+  Lemmas.InterEnd.predicted_picture_decodes s hs hr p w h hv hw hh hi r href hrd rest pos
+
+/-- a 16x16 predicted picture of one INTER macroblock: vector differential (1, −2) half samples, two coded blocks -/
+def exPPic : Lemmas.SorensonPicture.SPic :=
+  ⟨{ version := 1, tr := 8, sizeCode := 0, customW := 16, customH := 16, picType := 1, deblock := false, quant := 9, extra := [] },
+    [⟨0, .coded .inter 0 (1, -2) ((0, 0), (0, 0), (0, 0))
+      [{ dc := none, events := [⟨0, 3, .short⟩, ⟨2, -50, .esc7⟩] }, { dc := none }, { dc := none }, { dc := none },
+       { dc := none, events := [⟨63, -1, .esc7⟩] }, { dc := none }]⟩]⟩
+
+/-- a decoder state holding one 16x16 reference picture -/
+def exState : State.State :=
+  { opts := { sorenson := true, scalability := false }, last := some 7, ref := some 7, running := 0,
+    store := [(7, Lemmas.InterEnd.freshPic (Spec.HeaderSpec.sorensonPicture C02.exSPic.hdr) (Spec.HeaderSpec.sorensonFmt C02.exSPic.hdr) 16 16)] }
+
+open H263V.Lemmas.SorensonPicture H263V.Lemmas.PictureRoundTrip H263V.Lemmas.RoundTrip H263V.Spec.Syntax in
+theorem exPPic_valid : exPPic.Valid { sorenson := true, scalability := false } 16 16 := by
+  unfold exPPic
+  refine ⟨⟨by decide, by decide, by decide, by decide, by decide, by decide, by decide, by decide⟩, by decide, rfl, rfl, ?_⟩
+  intro m hm
+  simp only [List.mem_singleton] at hm
+  subst hm
+  refine ⟨by decide, fun h => by simp [MbType.hasQuantizer] at h, fun _ => by unfold MvdVal; omega,
+    fun h => by simp [MbType.hasFourVec] at h, ?_⟩
+  intro i hi
+  have : i = 0 ∨ i = 1 ∨ i = 2 ∨ i = 3 ∨ i = 4 ∨ i = 5 := by omega
+  rcases this with e | e | e | e | e | e <;> subst e <;>
+    refine ⟨rfl, ?_⟩ <;>
+    simp only [blk, List.getD_cons_zero, List.getD_cons_succ, EventsOK, EventOK, v1] <;> decide
+
+open H263V.State H263V.Lemmas.StreamAny H263V.Lemmas.PlaneInv in
+/-- non-vacuity: `exState` and `exPPic` meet the hypotheses, so that predicted picture decodes successfully -/
+example (rest : Bits) : ∃ pic, decodeNextPicture exState ⟨(Pic.sor exPPic).bits exState ++ rest, 0⟩ =
+    .ok (commitPic exState ((Pic.sor exPPic).picture exState) pic, ⟨rest, 0 + ((Pic.sor exPPic).bits exState).length⟩) ∧
+    pic.luma.size = 16 * 16 := by
+  have hst : StoreOK exState := by
+    intro k p hp
+    unfold exState lookup at hp
+    simp only [List.find?_cons, List.find?_nil] at hp
+    split at hp
+    · simp only [Option.map_some, Option.some.injEq] at hp
+      subst hp
+      refine ⟨16, 16, by omega, by omega, rfl, ⟨by simp [Lemmas.InterEnd.freshPic], ?_⟩, ⟨by simp [Lemmas.InterEnd.freshPic], ?_⟩,
+        ⟨by simp [Lemmas.InterEnd.freshPic], ?_⟩, rfl⟩ <;>
+      · intro i hi; simp [Lemmas.InterEnd.freshPic]
+    · simp at hp
+  obtain ⟨pic, _, _, _, _, _, h, _, _, _, _, _, _, hz, _⟩ :=
+    predicted_picture_decodes_within_one exState hst rfl (Pic.sor exPPic) 16 16 ⟨rfl, exPPic_valid⟩ (by omega) (by omega)
+      (by decide) _ rfl rfl rest 0
+  exact ⟨pic, h, hz⟩
 
 end H263V.Thm.C03
